@@ -96,7 +96,7 @@ Section Join.
       (cs ++ cr, c_data x ++ dr)
     end.
 
-  Definition coo_concatenate (fl : ctor_flags) (ndim_expr : pyv -> res pyv) (checks_fill : bool)
+  Definition coo_concatenate (fl : ctor_flags) (ndim_expr : pyv -> res pyv) (checks_fill : bool) (mexc : exc)
              (axis : Z) (arrs : list (coo V)) : res (coo V) :=
     match arrs with
     | [] => Raise ValueError                         (* "At least one array required." *)
@@ -105,7 +105,7 @@ Section Join.
       ax <- norm_axis ndim_expr axis (ndim_of a) ;;
       let k := Z.to_nat ax in
       if negb (forallb (fun x => same_off_axis k (c_shape a) (c_shape x)) arrs)
-      then Raise OtherError                          (* AssertionError *)
+      then Raise mexc                                (* ndim / off-axis extents differ *)
       else
         let sh := upd k (fun _ => zsum (map (fun x => nth k (c_shape x) 0) arrs)) (c_shape a) in
         let '(cs, ds) := concat_parts k 0 arrs in
@@ -118,10 +118,10 @@ Section Join.
     mkCOO [size (c_shape x)] (map (fun c => [ravel (c_shape x) c]) (c_coords x)) (c_data x) (c_fill x).
 
   (* `if axis is None: axis = 0; arrays = [x.flatten() for x in arrays]` *)
-  Definition coo_concatenate_opt fl ndim_expr checks_fill (axis : option Z) (arrs : list (coo V)) :=
+  Definition coo_concatenate_opt fl ndim_expr checks_fill mexc (axis : option Z) (arrs : list (coo V)) :=
     match axis with
-    | Some a => coo_concatenate fl ndim_expr checks_fill a arrs
-    | None => coo_concatenate fl ndim_expr checks_fill 0 (map coo_flatten arrs)
+    | Some a => coo_concatenate fl ndim_expr checks_fill mexc a arrs
+    | None => coo_concatenate fl ndim_expr checks_fill mexc 0 (map coo_flatten arrs)
     end.
 
   (* ---------------------------------------------------------------- COO stack *)
@@ -135,14 +135,14 @@ Section Join.
       (map (ins k j) (c_coords x) ++ cr, c_data x ++ dr)
     end.
 
-  Definition coo_stack (fl : ctor_flags) (ndim_expr : pyv -> res pyv) (checks_fill : bool)
+  Definition coo_stack (fl : ctor_flags) (ndim_expr : pyv -> res pyv) (checks_fill : bool) (mexc : exc)
              (axis : Z) (arrs : list (coo V)) : res (coo V) :=
     match arrs with
     | [] => Raise ValueError
     | a :: _ =>
       if checks_fill && negb (fills_consistent a arrs) then Raise ValueError else
       if negb (forallb (fun x => idx_eqb (c_shape a) (c_shape x)) arrs)
-      then Raise OtherError                          (* assert len({x.shape for x in arrays}) == 1 *)
+      then Raise mexc                                (* if len({x.shape for x in arrays}) != 1 *)
       else
         ax <- norm_axis ndim_expr axis (ndim_of a) ;;
         let k := Z.to_nat ax in
@@ -209,7 +209,7 @@ Section Join.
     mkGCXS sh [ax] (flat_map (@g_data V) arrs) (flat_map (@g_indices V) arrs)
            (splice (map (fun g => (g_indptr g, gnnz g)) arrs)) fill.
 
-  Definition gcxs_concatenate (fsrc : fill_src) (ndim_expr : pyv -> res pyv) (checks_fill : bool)
+  Definition gcxs_concatenate (fsrc : fill_src) (ndim_expr : pyv -> res pyv) (checks_fill : bool) (mexc : exc)
              (axis : Z) (caxes : option (list Z)) (arrs : list (gcxs V)) : res (gcxs V) :=
     match arrs with
     | [] => Raise ValueError
@@ -217,12 +217,18 @@ Section Join.
       if checks_fill && negb (forallb (fun x => veqb (g_fill a) (g_fill x)) arrs) then Raise ValueError else
       ax <- norm_axis ndim_expr axis (Z.of_nat (length (g_shape a))) ;;
       let k := Z.to_nat ax in
-      if negb (forallb (fun x => same_off_axis k (g_shape a) (g_shape x)) arrs) then Raise OtherError else
+      if negb (forallb (fun x => same_off_axis k (g_shape a) (g_shape x)) arrs) then Raise mexc else
       let sh := upd k (fun _ => zsum (map (fun x => nth k (g_shape x) 0) arrs)) (g_shape a) in
       let ca := match caxes with Some c => c | None => [ax] end in
       let ms := map (change_compressed_axes [ax]) arrs in
       Ok (change_compressed_axes ca (gcxs_join_core sh ax (fill_of fsrc (g_fill a)) ms))
     end.
+
+  (* axis=None: `axis = 0; arrays = [x.flatten() for x in arrays]`, then the 1-d members go through the COO
+     joiner (`arrays[0].ndim == 1`: arrays = [arr.tocoo() ...]; coo_concat(arrays, axis=axis)).  By meaning:
+     flatten and tocoo commute, so this is the COO joiner's axis=None on the members' COO forms. *)
+  Definition gcxs_concatenate_none (coo_join_none : list (coo V) -> res (coo V)) (arrs : list (gcxs V)) : res (coo V) :=
+    coo_join_none (map (gcxs_tocoo veqb vadd) arrs).
 
   (* arrays[i].reshape(shape with a 1 inserted at axis).change_compressed_axes((axis,)), by its meaning:
      the member's entries with a 0 inserted at the new axis, compressed along it (GCXS.reshape's kernel
@@ -232,7 +238,7 @@ Section Join.
     mkCOO (ins k 1 (c_shape c)) (map (ins k 0) (c_coords c)) (c_data c) (c_fill c).
   Definition gcxs_expand (k : nat) (g : gcxs V) : coo V := coo_expand k (gcxs_tocoo veqb vadd g).
 
-  Definition gcxs_stack (fsrc : fill_src) (ndim_expr : pyv -> res pyv) (checks_fill : bool)
+  Definition gcxs_stack (fsrc : fill_src) (ndim_expr : pyv -> res pyv) (checks_fill : bool) (mexc : exc)
              (axis : Z) (caxes : option (list Z)) (arrs : list (gcxs V)) : res (gcxs V) :=
     match arrs with
     | [] => Raise ValueError
@@ -240,7 +246,7 @@ Section Join.
       if checks_fill && negb (forallb (fun x => veqb (g_fill a) (g_fill x)) arrs) then Raise ValueError else
       ax <- norm_axis ndim_expr axis (Z.of_nat (length (g_shape a))) ;;
       let k := Z.to_nat ax in
-      if negb (forallb (fun x => idx_eqb (g_shape a) (g_shape x)) arrs) then Raise OtherError else
+      if negb (forallb (fun x => idx_eqb (g_shape a) (g_shape x)) arrs) then Raise mexc else
       let sh := ins k (Z.of_nat (length arrs)) (g_shape a) in
       let ca := match caxes with Some c => c | None => [ax] end in
       let ms := map (fun g => gcxs_from_coo (gcxs_expand k g) [ax]) arrs in
@@ -262,13 +268,16 @@ Section Instances.
 
   Definition coo_concatenate_src : option Z -> list (coo V) -> res (coo V) :=
     coo_concatenate_opt V veqb vzero vadd concat_flags site_concatenate_axis_ndim
-                        site_concatenate_checks_consistent_fill.
+                        site_concatenate_checks_consistent_fill site_concatenate_mismatch_exc.
   Definition coo_stack_src : Z -> list (coo V) -> res (coo V) :=
-    coo_stack V veqb vzero vadd stack_flags site_stack_axis_ndim site_stack_checks_consistent_fill.
+    coo_stack V veqb vzero vadd stack_flags site_stack_axis_ndim site_stack_checks_consistent_fill
+              site_stack_mismatch_exc.
   Definition gcxs_concatenate_src : Z -> option (list Z) -> list (gcxs V) -> res (gcxs V) :=
     gcxs_concatenate V veqb vzero site_gcxs_concatenate_fill site_gcxs_concatenate_axis_ndim
-                     site_gcxs_concatenate_checks_consistent_fill.
+                     site_gcxs_concatenate_checks_consistent_fill site_gcxs_concatenate_mismatch_exc.
+  Definition gcxs_concatenate_none_src : list (gcxs V) -> res (coo V) :=
+    gcxs_concatenate_none V veqb vadd (coo_concatenate_src None).
   Definition gcxs_stack_src : Z -> option (list Z) -> list (gcxs V) -> res (gcxs V) :=
     gcxs_stack V veqb vzero vadd site_gcxs_stack_fill site_gcxs_stack_axis_ndim
-               site_gcxs_stack_checks_consistent_fill.
+               site_gcxs_stack_checks_consistent_fill site_gcxs_stack_mismatch_exc.
 End Instances.
